@@ -368,7 +368,7 @@ def validate_traces(ctx: "Ctx", module: str, cfg: str, traces: list, *, chunk: i
     Returns {name: {"v": verdict, "at": index}}. Every trace must get exactly one verdict, otherwise
     the trace spec itself is broken (machinery failure)."""
     verdicts = {}
-    traces = [t for t in traces if t["ev"]]
+    traces = [t for t in traces if t.get("ev", True)]
     for k in range(0, len(traces), chunk):
         part = traces[k:k + chunk]
         fd, path = tempfile.mkstemp(prefix="traces_", suffix=".ndjson")
